@@ -11,7 +11,7 @@ import common
 from common import Report, Sandbox, run_cicada, crashed
 
 _sb = None
-ARGS_POOL = ["a1", "b2", "x y", "two  sp", "st*r", "q'q", "semi;c", "eq=1", "-n", "é", ""]
+ARGS_POOL = ["a1", "b2", "x y", "two  sp", "st*r", "q'q", "semi;c", "eq=1", "-n", "é", "", "C:\\dir\\file", "a\\b"]
 
 
 def _init(cicada):
